@@ -16,3 +16,9 @@ open MtailVerif.C01
 #print axioms float_comparison_table
 #print axioms and_short_circuits
 #print axioms or_short_circuits
+#print axioms MtailVerif.C01.line_skeletons
+#print axioms MtailVerif.C01.symbols_skeletons
+#print axioms MtailVerif.C01.exec_skeletons
+#print axioms MtailVerif.C01.compare_skeletons
+#print axioms MtailVerif.C01.codegenBefore_skeletons
+#print axioms MtailVerif.C01.codegenAfter_skeletons
